@@ -5,8 +5,10 @@ use rayon::prelude::*;
 
 pub fn run(ctx: &Ctx) {
     let jobs: Vec<Box<dyn Fn() + Sync + Send>> = vec![
+        Box::new(|| crate::c07::explore(ctx, &obs::fi_spec)),
         Box::new(|| crate::c08::explore(ctx, &obs::cm_spec)),
         Box::new(|| crate::c09::explore(ctx, &obs::bloom_spec)),
+        Box::new(|| crate::c10::explore(ctx, &obs::td_spec)),
     ];
     jobs.par_iter().for_each(|j| j());
 }
